@@ -668,3 +668,223 @@ _INFO = {
     "trusted": ["SpectrumResult.__init__ normalisation is value preserving"],
 }
 PROPERTY_INFO = {"C05": dict(_INFO), "C07": {"bounded": ["C07C08.gain_delay_trend"], "not_decided": ["delay clause (phase -2 pi f d/fs, magnitude 1 up to d/L): approximate edge-effect statement, bounded run-time check only"]}, "C08": {"bounded": ["C07C08.gain_delay_trend", "C05.reference"], "not_decided": ["span(Q) = polynomials of degree <= p rests on the assumed QR contract (range(Q) = range(V)); 'degree p+1 does change it' is existential: run-time witness"]}, "C14": {"bounded": ["C05.reference"]}, "C12": {"bounded": [], "not_decided": ["side-lobe level of np.kaiser itself (Bessel window, continuum of offsets): bounded grid only"]}}
+
+
+# ---- SpectrumAnalyzer.__init__: sanitising, layouts, caller's buffer (C13) --------------------------------
+
+for _m in ("_process_window_config", "_process_scheduler_config"):
+    UNITS.append(Unit(id=f"analysis.SpectrumAnalyzer.{_m}[stub]", module=M, func=f"SpectrumAnalyzer.{_m}", props=[], params={}, returns="none", ensures={}, opts={"callee": True}))
+
+
+def _init_setup(layout):
+    def setup(eng, st, fid, genv):
+        import z3
+        from pyvc import values as V
+        from pyvc.heap import ObjV, ArrV, ListV
+        from pyvc.values import Sym
+
+        N = eng.fresh("N", "int")
+        st.assume(V.cmp(">=", N, 1))
+        genv["N"] = N
+        fin = {}
+
+        def channel(nm):
+            a = eng.fresh_array(nm, (N,), "real")
+            f = eng.fresh_fn(nm + ".finite", 1, "bool")
+            fin[a.uf.name()] = f
+            return a, f
+
+        c0, f0 = channel("ch0")
+        st.tags["finite_fns"] = {}
+        if layout == "1d":
+            data = c0
+            st.tags["finite_of"] = lambda ix: Sym(f0(V.int_term(ix[0])), "bool")
+            caller = eng.alloc(st, data)
+            genv.update(CH0=c0, CH1=None, FIN0=lambda i: Sym(f0(V.int_term(i)), "bool"))
+        else:
+            c1, f1 = channel("ch1")
+            if layout == "2xN":
+                data = ArrV((2, N), lambda ix: V.ite(V.cmp("==", ix[0], 0), c0.fn((ix[1],)), c1.fn((ix[1],))), "real")
+                st.tags["finite_of"] = lambda ix: V.ite(V.cmp("==", ix[0], 0), Sym(f0(V.int_term(ix[1])), "bool"), Sym(f1(V.int_term(ix[1])), "bool"))
+                caller = eng.alloc(st, data)
+            elif layout == "Nx2":
+                st.assume(V.cmp("!=", N, 2))
+                data = ArrV((N, 2), lambda ix: V.ite(V.cmp("==", ix[1], 0), c0.fn((ix[0],)), c1.fn((ix[0],))), "real")
+                st.tags["finite_of"] = lambda ix: V.ite(V.cmp("==", ix[1], 0), Sym(f0(V.int_term(ix[0])), "bool"), Sym(f1(V.int_term(ix[0])), "bool"))
+                caller = eng.alloc(st, data)
+            else:  # list of two channels
+                a0, a1 = eng.alloc(st, c0), eng.alloc(st, c1)
+                caller = eng.alloc(st, ListV(items=[a0, a1]))
+                data = None
+                st.tags["finite_of"] = None
+                st.tags["finite_list"] = (c0, f0, c1, f1)
+            genv.update(CH0=c0, CH1=c1)
+        st.tags["caller_bufs"] = frozenset().union(*[a.bufs for a in ([c0] if layout == "1d" else [c0, c1])]) | (data.bufs if data is not None else frozenset())
+        st.tags["caller_arrays"] = {c0.uf.name(): f0}
+        if layout != "1d":
+            st.tags["caller_arrays"][c1.uf.name()] = f1
+        genv["FIN"] = {"0": f0}
+        eng.setvar(st, fid, "data", caller)
+        eng.setvar(st, fid, "self", eng.alloc(st, ObjV("SpectrumAnalyzer", {})))
+        fsv = eng.fresh("fs", "real")
+        st.assume(V.cmp(">", fsv, 0))
+        eng.setvar(st, fid, "fs", fsv)
+        eng.setvar(st, fid, "order", 0)
+        st.tags["init_layout"] = layout
+        st.tags["fin0"], st.tags["fin1"] = f0, (None if layout == "1d" else f1)
+
+    return setup
+
+
+INIT_ENS_1 = {
+    "C13.stored_record_is_zero_filled_input": "forall(0, N, lambda n: self.x1[n] == ite(FINITE0(n), CH0[n], 0))",
+    "C13.length": "self.nx == N and self.iscsd == False",
+}
+INIT_ENS_2 = {
+    "C13.stored_record_is_zero_filled_input": "forall(0, N, lambda n: self.x1[n] == ite(FINITE0(n), CH0[n], 0) and self.x2[n] == ite(FINITE1(n), CH1[n], 0))",
+    "C13.length": "self.nx == N and self.iscsd == True",
+}
+for _lay in ("1d", "2xN", "Nx2", "list"):
+    UNITS.append(
+        Unit(
+            id=f"analysis.SpectrumAnalyzer.__init__[{_lay}]",
+            module=M,
+            func="SpectrumAnalyzer.__init__",
+            props=["C13"],
+            setup=_init_setup(_lay),
+            ensures=dict(INIT_ENS_1 if _lay == "1d" else INIT_ENS_2),
+            opts={"callee": False},
+        )
+    )
+
+_install_ac3 = install
+
+
+def install(eng):  # noqa: F811
+    _install_ac3(eng)
+    from pyvc.heap import Builtin, ArrV, Ref
+    from pyvc.values import Sym
+    from pyvc import values as V
+    import z3
+
+    def fin_of_value(st, e):
+        """finite flag of a sample that is (syntactically) an element of a caller array"""
+        fns = st.tags.get("caller_arrays")
+        if not fns or not isinstance(e, Sym):
+            return None
+        t = e.t
+        # element terms are ch(i) or ite(..., ch0(i), ch1(i))
+        def go(t):
+            if z3.is_app(t) and t.decl().kind() == z3.Z3_OP_UNINTERPRETED and t.decl().name() in fns:
+                return fns[t.decl().name()](t.arg(0))
+            if z3.is_app(t) and t.decl().kind() == z3.Z3_OP_ITE:
+                a, b = go(t.arg(1)), go(t.arg(2))
+                if a is not None and b is not None:
+                    return z3.If(t.arg(0), a, b)
+            if z3.is_rational_value(t) or z3.is_int_value(t):
+                return z3.BoolVal(True)
+            return None
+
+        r = go(t)
+        return None if r is None else Sym(r, "bool")
+
+    def isfinite_hook(eng_, st, e):
+        real = eng_.cur_state
+        r = fin_of_value(real, e)
+        return True if r is None else r
+
+    eng.isfinite_hook = isfinite_hook
+
+    def nan_to_num_hook(eng_, st, x, xd, copy, nan, posinf, neginf):
+        real = eng_.cur_state
+        if "caller_arrays" not in real.tags or not isinstance(xd, ArrV):
+            return None
+
+        def z(e):
+            f = fin_of_value(real, e)
+            return e if f is None else V.ite(f, e, 0)
+
+        new = ArrV(xd.shape, lambda ix: z(xd.fn(ix)), xd.dtype)
+        if eng_.truthy(real, copy) is False and isinstance(x, Ref):
+            # in-place: the buffer is written; it must not be (an alias of) the caller's array
+            eng_.frame_write(real, x, "nan_to_num")
+            new.bufs = xd.bufs
+            real.heap[x.loc] = new
+            return x
+        return eng_.alloc(real, new)
+
+    eng.nan_to_num_hook = nan_to_num_hook
+    prev_fc = getattr(eng, "frame_checker", None)
+
+    def frame_checker(eng_, st, ref, label):
+        cb = st.tags.get("caller_bufs")
+        if cb is not None:
+            obj = st.heap[ref.loc]
+            if isinstance(obj, ArrV) and (obj.bufs & cb):
+                eng_.oblige(st, "frame", f"C13.caller_array_not_written:{label}", False)
+        if prev_fc:
+            prev_fc(eng_, st, ref, label)
+
+    eng.frame_checker = frame_checker
+    eng.builtins["FINITE0"] = Builtin("FINITE0", lambda eng_, st, n: Sym(eng_.cur_state.tags["fin0"](V.int_term(n)), "bool"), True)
+    eng.builtins["FINITE1"] = Builtin("FINITE1", lambda eng_, st, n: Sym(eng_.cur_state.tags["fin1"](V.int_term(n)), "bool"), True)
+
+
+def bounded_inputs(tier, seed):
+    """C13 stand-in (bounded): non-finite samples == zero-filled record, caller's array untouched (also when it
+    is already float64 C-contiguous), layout/dtype independence, finite results for zero/constant records"""
+    import numpy as np
+    from speckit import SpectrumAnalyzer
+
+    rng = np.random.default_rng(seed)
+    fails, n = [], 0
+    N = 800
+    kw = dict(olap=0.5, Jdes=12, Kdes=6, scheduler="ltf", win="hann")
+    base = rng.normal(size=(2, N))
+
+    def attrs(res, cross):
+        names = ["Gxx", "Gyy", "Gxy", "coh", "Hxy"] if cross else ["Gxx", "psd", "asd"]
+        return {k: np.asarray(getattr(res, k)) for k in names}
+
+    kinds = {"nan": [np.nan], "posinf": [np.inf], "neginf": [-np.inf], "mixed": [np.nan, np.inf, -np.inf]}
+    for kind, vals in kinds.items():
+        bad = base.copy()
+        idx = rng.choice(N, 6, replace=False)
+        for k, i in enumerate(idx):
+            bad[k % 2, i] = vals[k % len(vals)]
+        zero = np.where(np.isfinite(bad), bad, 0.0)
+        layouts = {
+            "1d float64 contiguous": (bad[0].copy(), zero[0], False),
+            "1d strided": (np.repeat(bad[0], 2)[::2], zero[0], False),
+            "2xN float64 contiguous": (bad.copy(), zero, True),
+            "Nx2": (np.ascontiguousarray(bad.T), zero, True),
+            "2xN float32": (bad.astype(np.float32), np.where(np.isfinite(bad.astype(np.float32)), bad.astype(np.float32), 0).astype(np.float64), True),
+            "list": ([bad[0].copy(), bad[1].copy()], zero, True),
+        }
+        for lname, (inp, zf, cross) in layouts.items():
+            n += 1
+            keep = [np.array(c, copy=True) for c in inp] if isinstance(inp, list) else np.array(inp, copy=True)
+            res = attrs(SpectrumAnalyzer(inp, 10.0, **kw).compute(), cross)
+            ref = attrs(SpectrumAnalyzer(zf, 10.0, **kw).compute(), cross)
+            same_input = all(np.array_equal(a, b, equal_nan=True) for a, b in zip(inp, keep)) if isinstance(inp, list) else np.array_equal(inp, keep, equal_nan=True)
+            if not same_input:
+                fails.append({"label": "C13.caller_array_untouched", "input": {"kind": kind, "layout": lname}, "detail": "the caller's array was modified"})
+            for k in res:
+                if not np.all(np.isfinite(res[k])) or not np.allclose(res[k], ref[k], rtol=1e-9, atol=1e-300):
+                    fails.append({"label": "C13.equals_zero_filled", "input": {"kind": kind, "layout": lname, "attribute": k}, "detail": "result differs from that of the zero-filled record (or is not finite)"})
+                    break
+    for rec, nm in ((np.zeros(N), "all-zero"), (np.full(N, 3.0), "constant"), (np.zeros((2, N)), "all-zero pair"), (np.vstack([np.full(N, 2.0), rng.normal(size=N)]), "constant + noise")):
+        for order in (-1, 0, 1, 2):
+            n += 1
+            r = SpectrumAnalyzer(rec, 10.0, order=order, **kw).compute()
+            cross = rec.ndim == 2
+            for k in (["Gxx", "Gyy", "Gxy", "coh", "ccoh", "Hxy", "Hyx", "cf", "cf_rad", "GyyCx", "GyyRx", "GyySx"] if cross else ["Gxx", "psd", "asd", "ps", "ENBW"]):
+                v = getattr(r, k)
+                if not np.all(np.isfinite(v)):
+                    fails.append({"label": "C13.finite_results", "input": {"record": nm, "order": order, "attribute": k}, "detail": "non-finite value for a finite record"})
+                    break
+    return {"evaluations": n, "bound": "4 kinds of non-finite samples x 6 layouts/dtypes; zero/constant records x 4 orders", "failures": fails[:5], "n_failures": len(fails)}
+
+
+BOUNDED["C13.inputs"] = bounded_inputs
+PROPERTY_INFO["C13"] = {"bounded": ["C13.inputs"], "not_decided": ["overflow of finite floats to inf (A-REAL)", "dtype/stride independence is covered by the value-preserving conversion contracts (A-ELEM) and sampled by the bounded check"]}
